@@ -5,7 +5,7 @@ EXTENDS Wrapper, SequencesExt
 
 CONSTANT D
 VARIABLE h
-gvars == <<created, lb, ub, cost, sense, pfix, plb, status, snap, h>>
+gvars == <<created, lb, ub, cost, offset, sense, pfix, plb, status, snap, h>>
 
 PairsOf(c) == SetToSeq({<<v, c[v]>> : v \in DOMAIN c})
 
@@ -14,8 +14,8 @@ GNext ==
   \/ \E v \in Vars, l, u \in Vals : AddVar(v, l, u) /\ h' = Append(h, <<"add", v, l, u>>)
   \/ \E v \in Vars, x \in Vals : QueueFix(v, x) /\ h' = Append(h, <<"fix", v, x>>)
   \/ \E v \in Vars, x \in Vals : QueueLB(v, x) /\ h' = Append(h, <<"lb", v, x>>)
-  \/ \E Dm \in {CreatedSet} \cup {{v} : v \in CreatedSet} : \E c \in [Dm -> {-1, 0, 2}], s \in {"minimize", "maximize"} :
-        SetObjective(c, s) /\ h' = Append(h, <<"obj", PairsOf(c), s>>)
+  \/ \E Dm \in {CreatedSet} \cup {{v} : v \in CreatedSet} : \E c \in [Dm -> {-1, 0, 2}], k \in Offsets, s \in {"minimize", "maximize"} :
+        SetObjective(c, k, s) /\ h' = Append(h, <<"obj", PairsOf(c), s, k>>)
   \/ Optimize /\ h' = Append(h, <<"opt">>)
   \/ \E S \in (SUBSET Vars) \ {{}} : GetValues(S) /\ h' = Append(h, <<"get", SetToSeq(S)>>)
 GSpec == GInit /\ [][GNext]_gvars
